@@ -59,20 +59,24 @@ class PrecipitationStoppingCondition:
         data = self._getData(model)
         return data[n,p]
     
-    def _testCondition(self, model):
+    def _testCondition(self, model, n = None):
         '''
         Private function only testing if stopping condition is satisfied based off current state of model
 
         Parameters
         ----------
         model : PrecipitateModel
+        n : int (optional)
+            Iteration to test (defaults to current iteration of model)
 
         Returns bool for whether condition is satisfied or not
         '''
+        if n is None:
+            n = model.pData.n
         if self._condition == Inequality.GREATER_THAN:
-            return self._poll(model, model.pData.n) > self._value
+            return self._poll(model, n) > self._value
         else:
-            return self._poll(model, model.pData.n) < self._value
+            return self._poll(model, n) < self._value
     
     def testCondition(self, model):
         '''
@@ -89,7 +93,11 @@ class PrecipitationStoppingCondition:
                 if model.pData.n > 0:
                     currVal, currTime = self._poll(model, model.pData.n), model.pData.time[model.pData.n]
                     prevVal, prevTime = self._poll(model, model.pData.n-1), model.pData.time[model.pData.n-1]
-                    self._satisfiedTime = (currTime - prevTime) * (self._value - prevVal) / (currVal - prevVal) + prevTime
+                    if self._testCondition(model, model.pData.n-1):
+                        #Condition was already satisfied before this step (ex. at the initial state), so there is no crossing to interpolate
+                        self._satisfiedTime = prevTime
+                    else:
+                        self._satisfiedTime = (currTime - prevTime) * (self._value - prevVal) / (currVal - prevVal) + prevTime
                 else:
                     self._satisfiedTime = model.pData.time[model.pData.n]
 
